@@ -19,7 +19,7 @@ SIM_UNIT = "filter steps"
 BUDGET = {"quick": {"runs": 6000, "wall": 80}, "thorough": {"runs": 60000, "wall": 1500}}
 SHRINK_LISTS = ("ops",)
 PROBES = {"C13": ["prior-correlated", "prior-diagonal", "step>=10", "time-indexed", "ukf:k<0", "ukf:k>=0",
-                  "ukf:default-k", "ukf:k-varies", "ekf:nonlinear", "QR-per-call", "pf:judged", "pf:low-ess-judged", "pf:far-from-origin", "outlier-measurement", "dims>=4", "spread>=1e4"]}
+                  "ukf:default-k", "ukf:k-varies", "ekf:nonlinear", "QR-per-call", "twin-filter-retuned", "ukf:nonlinear-psd", "pf:judged", "pf:low-ess-judged", "pf:far-from-origin", "outlier-measurement", "dims>=4", "spread>=1e4"]}
 TS = float(os.environ.get("PPSIM_TOLSCALE", "1"))
 TOL = 1e-9 * TS
 
@@ -51,6 +51,8 @@ def generate(seed, tier, prop="C13"):
     plant = "linear"
     if filt == "EKF" and r.random() < 0.35:
         plant = "nonlinear"; n, m, q = min(n, 4), min(m, 3), min(q, 4)
+    if filt == "UKF" and r.random() < 0.25:
+        plant = "nonlinear"         # no closed-form posterior: only the covariance-validity clause is judged
     tv = r.random() < 0.35 and filt != "PF"
     kmode = r.choice(["default", "zero", "one", "three", "neg-half", "neg-most", "frac"])
     cfg = {"filter": filt, "n": n, "m": m, "q": q, "plant": plant, "tv": tv, "kmode": kmode,
@@ -160,6 +162,16 @@ def execute(plan, prop, out, tr):
     else:
         f = pp.module.PF(model, Qc, Rc, particles=c["particles"])
     npd = lambda t: t.detach().double().numpy()
+    if qr_at == "ctor" and rng.H(s, "twin") % 3 == 0:
+        # a second filter built from the SAME covariance tensors is re-tuned: nothing may change for the first one,
+        # nor in the caller's tensors
+        Q0, R0 = Q.clone(), R.clone()
+        twin = type(f)(model, Q, R) if filt != "PF" else pp.module.PF(model, Q, R, particles=10)
+        twin.set_uncertainty(Q=Q * 5.0 + 1.0, R=R * 0.2 + 3.0)
+        out.probe("twin-filter-retuned")
+        if not (torch.equal(Q, Q0) and torch.equal(R, R0)):
+            raise Violation("C13.mutation", "set_uncertainty on a second filter changed the covariance tensors the caller "
+                            "passed to both constructors", 0, "mutation:set_uncertainty")
     LQ = np.linalg.cholesky(npd(Q)); LR = np.linalg.cholesky(npd(R))
 
     def mats(t):
@@ -203,6 +215,10 @@ def execute(plan, prop, out, tr):
             else:
                 xn, Pn = f(x_est, y, u, P, t=targ, **qr_kw)
         except Exception as e:
+            if filt == "UKF" and c["plant"] == "nonlinear" and ((3 - n) if k is None else k) < 0:
+                # with a negative centre weight the predicted covariance of a nonlinear model need not be positive
+                # definite, and the filter's own Cholesky refuses it: outside what the property promises
+                out.declined("C13.ukf(negative centre weight, nonlinear: no promise)"); break
             raise Violation("C13.raises", "%s step %d raised %s: %s" % (filt, i, type(e).__name__, str(e)[:300]), i,
                             "raises:" + filt)
         for a, b, nm in zip((x_est, y, u, P), args, ("x", "y", "u", "P")):
@@ -211,7 +227,16 @@ def execute(plan, prop, out, tr):
         tr.ev("step", i, xn, Pn)
         out.sim_time += 1; out.ops += 1
         xe, Pe, un, yn = npd(x_est), npd(P), npd(u), npd(y)
-        if filt in ("EKF", "UKF"):
+        if filt == "UKF" and c["plant"] == "nonlinear":
+            kk = (3 - n) if k is None else k
+            out.probe("ukf:nonlinear-psd")
+            pmax = float(P.abs().max() + Q.abs().max())
+            # conditioning of the innovation covariance: |dg/dx|^2 grows with |x|^2 through the quadratic term of g
+            gx = 100.0 * (1.0 + float(x_est.abs().max()) + float(xn.abs().max())) ** 2
+            kap = 1.0 + gx * pmax / max(float(torch.linalg.eigvalsh(R)[0]), 1e-300)
+            _psd(Pn, "UKF step %d (nonlinear plant, n=%d, k=%s)" % (i, n, k), i, "psd:UKF:nonlinear", need=(kk >= 0),
+                 slack=1e3 * 2.3e-16 * kap * pmax)
+        elif filt in ("EKF", "UKF"):
             if c["plant"] == "linear":
                 try:
                     xr, Pr, info = refmath.kalman_step(xe, Pe, un, yn, Mt["A"], Mt["B"], Mt["C"], Mt["D"], Mt["c1"], Mt["c2"],
@@ -301,7 +326,7 @@ def execute(plan, prop, out, tr):
                     raise Violation("C13.pf", "PF step %d: estimate is %.1f sigma from the posterior mean of the particle "
                                     "model (N=%d, ESS %.2f)" % (i, z.max(), c["particles"], ess), i, "pf:mean")
         x_est, P = xn.detach(), Pn.detach()
-        if not torch.isfinite(x_est).all() or x_est.abs().max() > 1e12:
+        if not torch.isfinite(x_est).all() or x_est.abs().max() > 1e6:
             break
         Ps = 0.5 * (P + P.mT)
         if torch.linalg.eigvalsh(Ps)[0] <= 1e-10 * Ps.abs().max():
